@@ -43,6 +43,8 @@ def _outcome(fn):
 def impl(case):
     from utype.parser.rule import Constraints, Lax, Rule
     op = case["op"]
+    if op == "decl":
+        return impl_decl(case)
     if op == "validator":
         f = getattr(Constraints, case["name"])
         v, b = decode(case["value"]), decode(case["bound"])
@@ -93,6 +95,20 @@ def prims_for(case) -> dict:
             vals += list(walk(decode(case[k])))
     for _, b in case.get("constraints", []):
         vals += list(walk(decode(b)))
+    decl_pats = []
+    if case.get("op") == "decl":
+        bodies = [c["attrs"] for c in case["classes"]] + [(case.get("wrap") or {}).get("cs", [])]
+        for body in bodies:
+            for k, a in body:
+                if isinstance(a, dict) and k not in ("contains", "__args__", "post_validate", "__ellipsis_args__"):
+                    vals += list(walk(decode(a["v"])))
+                    if k == "regex":
+                        decl_pats.append(decode(a["v"]))
+        for t in case["types"]:
+            for k, b in t["cs"]:
+                vals += list(walk(decode(b)))
+                if k == "regex":
+                    decl_pats.append(decode(b))
     fr, ds, fd, rd, rex = [], [], [], [], []
     ints = [x for x in vals if type(x) is int and abs(x) < 40]
     # close the float entries under the roundings a lax constraint can apply (two levels: lax_decimal_places then
@@ -141,6 +157,14 @@ def prims_for(case) -> dict:
                 rex.append([p, s, re.fullmatch(p, s) is not None])
             except Exception:
                 pass
+    for p in decl_pats:
+        if isinstance(p, str):
+            for x in walk(decode(case["value"])):
+                if isinstance(x, (str, int, float, Decimal)) and not isinstance(x, bool):
+                    try:
+                        rex.append([p, str(x), re.fullmatch(p, str(x)) is not None])
+                    except Exception:
+                        pass
     return {"floatRepr": fr, "decStr": ds, "floatToDec": fd, "floatRound": rd, "re": rex}
 
 
@@ -219,10 +243,8 @@ def sat(name, v, b) -> bool:
     raise Undefined
 
 
-def expected_accept(case) -> bool:
-    """strict constraint set on a value of the source type"""
-    v = decode(case["value"])
-    cs = [(n, decode(b)) for n, b in case["constraints"]]
+def accept_cs(cs, v) -> bool:
+    """strict constraint set `cs` = [(name, bound)] on a value of the source type, each in its documented sense"""
     names = [n for n, _ in cs]
     if "const" in names:
         cs = [c for c in cs if c[0] == "const"]      # documented: const stands alone
@@ -232,7 +254,7 @@ def expected_accept(case) -> bool:
     ok = True
     order = {n: i for i, n in enumerate(STRICT)}
     for n, b in sorted(cs, key=lambda c: order[c[0]]):
-        if b is None:
+        if b is None and n != "const":
             continue
         if not sat(n, run, b):
             ok = False
@@ -241,6 +263,324 @@ def expected_accept(case) -> bool:
             # documented (rule.md): a Decimal is first completed to `decimal_places` digits, then max_digits is checked
             run = run.quantize(Decimal(1).scaleb(-b))
     return ok
+
+
+def expected_accept(case) -> bool:
+    """strict constraint set on a value of the source type"""
+    return accept_cs([(n, decode(b)) for n, b in case["constraints"]], decode(case["value"]))
+
+
+# ------------------------------------------------------------------------------------------------
+# op "decl": declared types built every way the library offers — class statements with several Rule bases / several
+# levels / overrides / cancelled constraints, Rule.annotate, Base[...], Field(...) on Schema and DataClass — with the
+# contains family, element types (__args__) and post_validate hooks.  A declaration is data (class bodies as lists of
+# [key, attr]); the adapter builds the real classes, the oracle builds *plain Python* shadow classes with the same
+# bases (no utype involved) and reads the visible constraints off them with getattr, i.e. through Python's own MRO.
+# ------------------------------------------------------------------------------------------------
+
+CONT_KEYS = ["contains", "min_contains", "max_contains"]
+META_KEYS = ["__args__", "__ellipsis_args__", "post_validate"]
+HOOK_NAMES = ["even", "nonempty", "short"]
+
+
+def hook_ok(name, v) -> bool:
+    """what the declared post_validate hook accepts (the hook bodies below, restated)"""
+    if name == "even":
+        return v % 2 == 0
+    if name == "nonempty":
+        return len(v) > 0
+    if name == "short":
+        return len(v) <= 2
+    raise Undefined
+
+
+def _hook(name):
+    from utype.utils import exceptions as exc
+
+    def post_validate(cls, value, context=None):
+        if not hook_ok(name, value):
+            raise exc.ConstraintError(constraint="hook", constraint_value=name)
+        return value
+    return classmethod(post_validate)
+
+
+def _build_tdesc(t):
+    from utype.parser.rule import Rule
+    origin = CLS_BY_NAME[t["origin"]]
+    cs = {k: decode(b) for k, b in t["cs"]}
+    return Rule.annotate(origin, constraints=cs) if cs else origin
+
+
+class _Marker:
+    def __init__(self, kind, payload):
+        self.kind, self.payload = kind, payload
+
+
+def _attr_value(key, a, types, shadow):
+    if a == "cancel":
+        if shadow:
+            return _Marker("cancel", None)
+        from utype.utils.datastructures import unprovided
+        return unprovided
+    if key == "contains":
+        if a["v"] is None:
+            return None
+        return _Marker("type", a["v"]["o"]) if shadow else types[a["v"]["o"]]
+    if key == "__args__":
+        idx = [x["o"] for x in a["v"]["t"]]
+        return _Marker("args", idx) if shadow else tuple(types[i] for i in idx)
+    if key == "post_validate":
+        return _Marker("hook", a["v"]["s"]) if shadow else _hook(a["v"]["s"])
+    v = decode(a["v"])
+    if a.get("lax"):
+        if shadow:
+            return _Marker("lax", v)
+        from utype.parser.rule import Lax
+        return Lax(v)
+    return v
+
+
+class ShadowRule:
+    """what class `Rule` itself binds (rule.py:1122-1123, 1178-1180)"""
+    contains = None
+    min_contains = None
+    max_contains = None
+    __args__ = None
+    __ellipsis_args__ = False
+
+
+def _generic(g, ts):
+    import typing
+    if g == "List":
+        return typing.List[ts[0]]
+    if g == "Set":
+        return typing.Set[ts[0]]
+    if g == "TupleE":
+        return typing.Tuple[ts[0], ...]
+    if g == "Tuple":
+        return typing.Tuple[tuple(ts)]
+    raise ValueError(g)
+
+
+def build_decl(case, shadow=False):
+    """-> (T, extra): the declared type; for Field declarations extra = the data class"""
+    origin = CLS_BY_NAME[case["origin"]]
+    types = None if shadow else [_build_tdesc(t) for t in case["types"]]
+    if shadow:
+        RuleBase = ShadowRule
+    else:
+        from utype.parser.rule import Rule as RuleBase
+    env = {"Rule": RuleBase, "origin": origin}
+    T = None
+    for c in case["classes"]:
+        bases = tuple(env[b] for b in c["bases"])
+        attrs = {k: _attr_value(k, a, types, shadow) for k, a in c["attrs"]}
+        T = type(c["name"], bases, attrs)
+        env[c["name"]] = T
+    w = case.get("wrap")
+    if not w:
+        return T, None
+    base = T if T is not None else RuleBase
+    cs = {k: _attr_value(k, a, types, shadow) for k, a in w.get("cs", [])}
+    kind = w["kind"]
+    if kind == "annotate":
+        if shadow:
+            attrs = dict(cs)
+            if w.get("args"):
+                attrs["__args__"] = _Marker("args", list(w["args"]))
+            if w.get("ellipsis"):
+                attrs["__ellipsis_args__"] = True
+            return type("W", (base,), attrs), None
+        args = [types[i] for i in w.get("args", [])]
+        if w.get("ellipsis"):
+            args.append(...)
+        return base.annotate(origin if w.get("origin") else None, *args, constraints=cs), None
+    if kind == "getitem":
+        if shadow:
+            return type("W", (base,), {} if w["item"] == "origin" else {"__args__": _Marker("args", [w["item"]])}), None
+        if (w["item"] == "origin") != (not base.__origin__):
+            # Base[x] means "origin x" only for a base without origin (one may have been inferred from its constraints)
+            raise LookupError("getitem form does not apply")
+        return base[origin if w["item"] == "origin" else types[w["item"]]], None
+    if kind in ("field", "dfield"):
+        ann = w["ann"]
+        if shadow:
+            if ann == "base" and not cs:
+                return T, None        # parse_annotation hands an unconstrained annotation back as it is (rule.py:1531-1533)
+            attrs = dict(cs)
+            if isinstance(ann, dict):
+                attrs["__args__"] = _Marker("args", list(ann["args"]))
+                if ann["g"] == "TupleE":
+                    attrs["__ellipsis_args__"] = True
+            return type("W", (ShadowRule,), attrs), (T if ann == "base" else None)
+        import utype
+        if ann == "origin":
+            a = origin
+        elif ann == "base":
+            a = T
+        else:
+            a = _generic(ann["g"], [types[i] for i in ann["args"]])
+        holder = utype.Schema if kind == "field" else utype.DataClass
+        S = type("S", (holder,), {"__annotations__": {"x": a}, "x": utype.Field(**cs), "__module__": __name__})
+        return S.__parser__.fields["x"].type, S
+    raise ValueError(kind)
+
+
+_MISSING = object()
+
+
+def visible(case):
+    """the declaration as Python's attribute lookup sees it, computed on plain shadow classes:
+    -> dict(cs=[(key, bound)], lax=bool, contains=(tdesc|None, min, max), args=[tdesc]|None, ellipsis, hook, nested=[(key,bound)]|None)"""
+    W, nested_base = build_decl(case, shadow=True)
+    out = {"cs": [], "lax": False, "hook": None, "args": None, "ellipsis": False, "contains": None, "nested": None}
+    for key in STRICT:
+        a = getattr(W, key, _MISSING)
+        if a is _MISSING or (isinstance(a, _Marker) and a.kind == "cancel"):
+            continue
+        if isinstance(a, _Marker) and a.kind == "lax":
+            out["lax"] = True
+            a = a.payload
+        out["cs"].append((key, a))
+    c = getattr(W, "contains", None)
+    if isinstance(c, _Marker) and c.kind == "type":
+        mn, mx = getattr(W, "min_contains", None), getattr(W, "max_contains", None)
+        out["contains"] = (case["types"][c.payload], mn if not isinstance(mn, _Marker) else None,
+                           mx if not isinstance(mx, _Marker) else None)
+    a = getattr(W, "__args__", None)
+    if isinstance(a, _Marker) and a.kind == "args":
+        out["args"] = [case["types"][i] for i in a.payload]
+        out["ellipsis"] = bool(getattr(W, "__ellipsis_args__", False))
+    h = getattr(W, "post_validate", None)
+    if isinstance(h, _Marker) and h.kind == "hook":
+        out["hook"] = h.payload
+    if nested_base is not None:
+        inner = dict(case, wrap=None)
+        out["nested"] = visible(inner)
+    return out
+
+
+def mro_bodies(case):
+    """the MRO of the declared class as a list of class bodies (what the Lean model is given)"""
+    W, nested_base = build_decl(case, shadow=True)
+    by_name = {c["name"]: c["attrs"] for c in case["classes"]}
+    w = case.get("wrap") or {}
+    out = []
+    for k in W.__mro__:
+        if k.__name__ == "W":
+            body = [list(x) for x in w.get("cs", [])]
+            if w.get("kind") == "annotate":
+                if w.get("args"):
+                    body.append(["__args__", {"v": {"t": [{"o": i} for i in w["args"]]}, "lax": False}])
+                if w.get("ellipsis"):
+                    body.append(["__ellipsis_args__", {"v": True, "lax": False}])
+            elif w.get("kind") == "getitem" and w["item"] != "origin":
+                body.append(["__args__", {"v": {"t": [{"o": w["item"]}]}, "lax": False}])
+            elif w.get("kind") in ("field", "dfield") and isinstance(w["ann"], dict):
+                body.append(["__args__", {"v": {"t": [{"o": i} for i in w["ann"]["args"]]}, "lax": False}])
+                if w["ann"]["g"] == "TupleE":
+                    body.append(["__ellipsis_args__", {"v": True, "lax": False}])
+            out.append(body)
+        elif k.__name__ in by_name and k is not ShadowRule:
+            out.append([list(x) for x in by_name[k.__name__]])
+    return out
+
+
+def item_accepts(t, x) -> bool:
+    """does the element type (descriptor) accept the item — in the documented sense, for items of its own exact type"""
+    origin = CLS_BY_NAME[t["origin"]]
+    if type(x) is origin:
+        return accept_cs([(k, decode(b)) for k, b in t["cs"]], x)
+    if origin in (int, float, Decimal) and isinstance(x, str) and any(ch.isalpha() for ch in x):
+        try:
+            Decimal(x.strip())
+        except Exception:
+            return False          # a string with letters that is not a number does not convert to a number
+    raise Undefined               # conversions between types are C12's business
+
+
+def decl_expected(case) -> bool:
+    vis = visible(case)
+    v = decode(case["value"])
+
+    def pad(x, cs):
+        d = dict(cs).get("decimal_places")
+        return x.quantize(Decimal(1).scaleb(-d)) if isinstance(x, Decimal) and d is not None and x.is_finite() else x
+
+    def one(vv, v):
+        """-> (verdict, the value as the documented order leaves it: Decimals completed to decimal_places, rule.md)"""
+        if vv["lax"]:
+            raise Undefined
+        ok = True
+        items = None
+        if vv["args"] is not None:
+            # documented order: the element type converts the items first, then the container's own constraints
+            ts = vv["args"]
+            if isinstance(v, tuple) and not vv["ellipsis"]:
+                if len(v) != len(ts):
+                    raise Undefined
+                per = list(zip(ts, v))
+            else:
+                per = [(ts[0], x) for x in v]
+            ok = all([item_accepts(t, x) for t, x in per])
+            items = [pad(x, [(k, decode(b)) for k, b in t["cs"]]) for t, x in per]
+        ok = accept_cs(vv["cs"], v) and ok
+        if vv["contains"] is not None:
+            t, mn, mx = vv["contains"]
+            n = sum([1 for x in (items if items is not None else list(v)) if item_accepts(t, x)])
+            ok = ok and n >= 1 and (mn is None or n >= mn) and (mx is None or n <= mx)
+        if vv["hook"] is not None:
+            ok = hook_ok(vv["hook"], v) and ok
+        out = v
+        if items is not None and ok:
+            try:
+                out = type(v)(items)
+            except Exception:
+                out = v
+        return ok, pad(out, vv["cs"])
+    if vis["nested"] is not None:
+        ok1, v1 = one(vis["nested"], v)       # the constrained base type converts first …
+        if not ok1:
+            return False
+        return one(vis, v1)[0]                # … then the constraints given to Field(...) apply to its output
+    return one(vis, v)[0]
+
+
+def impl_decl(case):
+    import warnings
+    warnings.simplefilter("ignore")
+    from utype.utils.exceptions import ParseError
+    try:
+        T, S = build_decl(case)
+    except Exception as e:
+        return {"decl": type(e).__name__}
+    v = decode(case["value"])
+    out = {"decl": "ok"}
+    try:
+        out["validators"] = [[f.__name__, encode(list(b) if k == "enum" and isinstance(b, (tuple, set, frozenset)) else b)]
+                             for k, b, f in getattr(T, "__validators__", [])]   # (an unconstrained field type is the plain class)
+    except Exception as e:
+        out["validators"] = "raised " + type(e).__name__
+    out["parse"] = _outcome(lambda: T(v))
+    if "ok" in out["parse"]:
+        try:
+            r = T(v)
+            out["result_type_same"] = type(r) is type(v)
+            out["result_equal"] = bool(r == v) or bool(r != r and v != v)
+        except Exception:
+            pass
+    try:
+        out["isinstance"] = bool(isinstance(v, T))
+    except ParseError:
+        out["isinstance"] = "raised ParseError"
+    except Exception as e:
+        out["isinstance"] = "raised " + type(e).__name__
+    if S is not None:
+        def via():
+            inst = S(x=v)
+            return inst["x"] if isinstance(inst, dict) else inst.x
+        out["via_field"] = _outcome(via)
+    return out
 
 
 # ------------------------------------------------------------------------------------------------
@@ -293,8 +633,12 @@ def rnd_seq(rng, kind):
     if kind in ("set", "frozenset"):
         items = [x for x in items if not isinstance(x, (list,))]
         return set(items) if kind == "set" else frozenset(items)
-    if rng.random() < 0.25:
-        items = [rng.choice([[1], [1, 2], [1.0], []]) for _ in range(n)]
+    if rng.random() < 0.3:
+        # unhashable items, among them equal ones that print differently ([1] == [1.0] == [True], {1} == {1.0})
+        fam = rng.choice([[[1], [1.0], [True], [1, 2], [1.0, 2], []], [[0], [False], [0.0], [[0]], [[0.0]]],
+                          [[1], [1.0], {1}, {1.0}, {True}], [[Decimal("1.0")], [1], [Decimal("1")], [[1, 2]], [[1.0, 2.0]]],
+                          [[1], [1, 2], [1.0], []]])
+        items = [rng.choice(fam) for _ in range(max(n, rng.choice([0, 2, 3])))]
     return items if kind == "list" else tuple(items)
 
 
@@ -390,6 +734,295 @@ def gen_rule_case(rng, lax_mode=False):
             "value": encode(v)}
 
 
+# ---- declared types -----------------------------------------------------------------------------
+
+ELEM_TYPES = [
+    {"origin": "int", "cs": [["gt", 0]]},
+    {"origin": "int", "cs": [["ge", 2], ["le", 5]]},
+    {"origin": "int", "cs": [["multiple_of", 2]]},
+    {"origin": "int", "cs": []},
+    {"origin": "str", "cs": [["regex", "[a-z]+"]]},
+    {"origin": "str", "cs": [["max_length", 2]]},
+    {"origin": "str", "cs": []},
+    {"origin": "Decimal", "cs": [["max_digits", 3]]},
+    {"origin": "Decimal", "cs": [["ge", Decimal("0.5")], ["decimal_places", 2]]},
+]
+ELEM_POOL = {
+    "int": [-3, -1, 0, 1, 2, 3, 4, 5, 6, 7, 10, 12],
+    "str": ["", "a", "ab", "abc", "A", "Ab", "x1", "zz", "0"],
+    "Decimal": [Decimal(x) for x in ["0", "0.5", "0.49", "1.25", "12.5", "99.9", "100", "1000", "0.125", "-1", "7.77", "0.50"]],
+}
+FOREIGN_ITEMS = ["a", "3", None, 2.5, True, "x-y"]
+
+
+def _enc_tdesc(t):
+    return {"origin": t["origin"], "cs": [[k, encode(b)] for k, b in t["cs"]]}
+
+
+def _a(v, lax=False):
+    return {"v": encode(v), "lax": lax}
+
+
+def gen_items(rng, t, want, others, foreign=0.1):
+    """a list with exactly `want` items the element type accepts and `others` exact-typed items it rejects (if it can reject)"""
+    pool = ELEM_POOL[t["origin"]]
+    cs = [(k, b) for k, b in t["cs"]]
+    good = [x for x in pool if accept_cs(cs, x)]
+    bad = [x for x in pool if not accept_cs(cs, x)]
+    items = [rng.choice(good) for _ in range(want)] if good else []
+    if bad:
+        items += [rng.choice(bad) for _ in range(others)]
+    if rng.random() < foreign:
+        items.append(rng.choice(FOREIGN_ITEMS))
+    rng.shuffle(items)
+    return items
+
+
+def gen_decl_case(rng):
+    base = gen_rule_case(rng, False)
+    origin = base["origin"]
+    seqlike = origin in ("list", "tuple", "set")
+    attrs = [[n, {"v": b, "lax": False}] for n, b in base["constraints"]]
+    value = decode(base["value"])
+    types, feats = [], []
+    trio, meta = [], []
+    k = rng.random()
+    if seqlike:
+        # the container's own ordinary constraints: keep them rarely restrictive so that the other checks decide
+        if rng.random() < 0.45:
+            attrs = []
+        want_contains = rng.random() < 0.7
+        want_args = rng.random() < 0.35
+        et = rng.choice(ELEM_TYPES)
+        if want_args:
+            at = et if rng.random() < 0.6 else rng.choice([t for t in ELEM_TYPES if t["origin"] == et["origin"]])
+            types.append(_enc_tdesc(at))
+            ai = len(types) - 1
+            if origin == "tuple" and rng.random() < 0.4:
+                at2 = rng.choice(ELEM_TYPES)
+                types.append(_enc_tdesc(at2))
+                meta.append(["__args__", {"v": {"t": [{"o": ai}, {"o": ai + 1}]}, "lax": False}])
+                feats.append("args2")
+            else:
+                meta.append(["__args__", {"v": {"t": [{"o": ai}]}, "lax": False}])
+                if origin == "tuple":
+                    meta.append(["__ellipsis_args__", {"v": True, "lax": False}])
+                feats.append("args")
+        if want_contains:
+            ct = et if rng.random() < 0.7 else rng.choice([t for t in ELEM_TYPES if t["origin"] == et["origin"]])
+            types.append(_enc_tdesc(ct))
+            ci = len(types) - 1
+            mn = rng.choice([None, None, 0, 1, 2, 3])
+            mx = rng.choice([None, None, 1, 2, 3, 4, 0])
+            if mn is not None and mx is not None and mx < mn and rng.random() < 0.9:
+                mn, mx = mx, mn
+            trio.append(["contains", {"v": {"o": ci}, "lax": False}])
+            if mn is not None:
+                trio.append(["min_contains", _a(mn)])
+            if mx is not None:
+                trio.append(["max_contains", _a(mx)])
+            feats.append("contains")
+            cands = {0, 1} | {x for b in (mn, mx) if b is not None for x in (b - 1, b, b + 1)}
+            want = rng.choice(sorted(x for x in cands if x >= 0))
+            items = gen_items(rng, ct, want, rng.randint(0, 3))
+        else:
+            items = gen_items(rng, et, rng.randint(0, 4), rng.randint(0, 1) if want_args and rng.random() < 0.5 else 0)
+        if "args2" in feats:
+            a1, a2 = ELEM_TYPES_BY(types[ai]), ELEM_TYPES_BY(types[ai + 1])
+            items = gen_items(rng, a1, 1, 0, 0)[:1] + gen_items(rng, a2, 1, 0, 0)[:1]
+            if rng.random() < 0.3:
+                items = gen_items(rng, a1, 0, 1, 0)[:1] + gen_items(rng, a2, 1, 0, 0)[:1]
+        if want_contains or want_args:
+            try:
+                value = {"list": list, "tuple": tuple, "set": set}[origin](items)
+            except TypeError:
+                value = list(items) if origin == "list" else tuple(items)
+        if rng.random() < 0.2:
+            meta.append(["post_validate", {"v": {"s": rng.choice(["nonempty", "short"])}, "lax": False}])
+            feats.append("hook")
+    else:
+        if origin == "int" and rng.random() < 0.25:
+            meta.append(["post_validate", {"v": {"s": "even"}, "lax": False}])
+            feats.append("hook")
+        elif origin == "str" and rng.random() < 0.25:
+            meta.append(["post_validate", {"v": {"s": rng.choice(["nonempty", "short"])}, "lax": False}])
+            feats.append("hook")
+        if "hook" in feats and rng.random() < 0.5:
+            attrs = []          # a type whose only check is the hook
+    everything = attrs + [["__trio__", trio]] * (1 if trio else 0) + [[m[0], m[1]] for m in meta]
+
+    def flat(chunk):
+        out = []
+        for k_, a_ in chunk:
+            if k_ == "__trio__":
+                out += [list(x) for x in a_]
+            else:
+                out.append([k_, a_])
+        return out
+
+    def split(n):
+        parts = [[] for _ in range(n)]
+        for item in everything:
+            parts[rng.randrange(n)].append(item)
+        return [flat(p_) for p_ in parts]
+
+    with_origin = origin not in ("int", "str") or rng.random() < 0.3
+    if rng.random() < 0.08:
+        with_origin = not with_origin
+    mix_bases = ["origin", "Rule"] if with_origin else ["Rule"]
+    shape = rng.choice(["flat", "multibase", "multibase", "multilevel", "diamond", "override", "cancel", "rename",
+                        "annotate", "annotate", "getitem", "field", "dfield", "fieldbase"])
+    classes, wrap = [], None
+    if shape == "flat":
+        classes = [{"name": "T", "bases": ["origin", "Rule"], "attrs": flat(everything)}]
+    elif shape == "multibase":
+        n = rng.choice([2, 2, 3])
+        parts = split(n + 1)
+        body = parts[-1] if rng.random() < 0.3 else []
+        if not body:
+            parts[rng.randrange(n)] += parts[-1]
+        for i in range(n):
+            classes.append({"name": f"M{i}", "bases": list(mix_bases), "attrs": parts[i]})
+        tb = [f"M{i}" for i in range(n)]
+        classes.append({"name": "T", "bases": tb if with_origin else ["origin"] + tb, "attrs": body})
+    elif shape == "multilevel":
+        parts = split(3)
+        if rng.random() < 0.6:
+            parts[rng.randrange(2)] += parts[2]
+            parts[2] = []
+        classes = [{"name": "A", "bases": ["origin", "Rule"], "attrs": parts[0]},
+                   {"name": "B", "bases": ["A"], "attrs": parts[1]},
+                   {"name": "T", "bases": ["B"], "attrs": parts[2]}]
+    elif shape == "diamond":
+        parts = split(3)
+        classes = [{"name": "A", "bases": list(mix_bases), "attrs": parts[0]},
+                   {"name": "B", "bases": ["A"], "attrs": parts[1]},
+                   {"name": "C", "bases": ["A"], "attrs": parts[2]},
+                   {"name": "T", "bases": ["B", "C"] if with_origin else ["origin", "B", "C"], "attrs": []}]
+    elif shape in ("override", "cancel"):
+        base_attrs = flat(everything)
+        body = []
+        keys = [a_ for a_ in base_attrs if a_[0] in ("gt", "ge", "lt", "le", "max_length", "min_length", "max_digits", "multiple_of",
+                                                       "max_contains", "min_contains", "length")]
+        if keys:
+            k_, a_ = rng.choice(keys)
+            if shape == "cancel":
+                body = [[k_, "cancel"]]
+            else:
+                b0 = decode(a_["v"])
+                try:
+                    b1 = b0 + rng.choice([1, 2, -1, 3]) if not isinstance(b0, Decimal) else b0 + Decimal(rng.choice(["0.1", "1", "-0.5"]))
+                except Exception:
+                    b1 = b0
+                body = [[k_, {"v": encode(b1), "lax": False}]]
+                if isinstance(b1, (int, float, Decimal)) and not isinstance(value, (list, tuple, set, str)) and rng.random() < 0.7:
+                    try:
+                        value = type(value)(rng.choice([b0, b1, (b0 + b1) / 2 if not isinstance(b0, int) else (b0 + b1) // 2, b1 + 1, b1 - 1]))
+                    except Exception:
+                        pass
+        classes = [{"name": "A", "bases": ["origin", "Rule"], "attrs": base_attrs},
+                   {"name": "T", "bases": ["A"], "attrs": body}]
+    elif shape == "rename":
+        classes = [{"name": "A", "bases": ["origin", "Rule"], "attrs": flat(everything)},
+                   {"name": "T", "bases": ["A"], "attrs": []}]
+    elif shape == "annotate":
+        ordinary = [x for x in flat(everything) if x[0] not in ("__args__", "__ellipsis_args__", "post_validate")]
+        rest_meta = [x for x in flat(everything) if x[0] == "post_validate"]
+        argidx = [o["o"] for x in flat(everything) if x[0] == "__args__" for o in x[1]["v"]["t"]]
+        ell = any(x[0] == "__ellipsis_args__" for x in flat(everything))
+        cut = rng.randint(0, len(ordinary))
+        in_base = ordinary[:cut] + rest_meta
+        has_base = bool(in_base) or rng.random() < 0.3
+        base_has_origin = has_base and rng.random() < 0.5
+        if has_base:
+            classes = [{"name": "A", "bases": ["origin", "Rule"] if base_has_origin else ["Rule"], "attrs": in_base}]
+        wrap = {"kind": "annotate", "origin": (not base_has_origin) or rng.random() < 0.5, "args": argidx, "ellipsis": ell,
+                "cs": ordinary[cut:]}
+    elif shape == "getitem":
+        argidx = [o["o"] for x in flat(everything) if x[0] == "__args__" for o in x[1]["v"]["t"]]
+        rest = [x for x in flat(everything) if x[0] not in ("__args__", "__ellipsis_args__")]
+        if argidx and origin != "tuple":
+            classes = [{"name": "A", "bases": ["origin", "Rule"], "attrs": rest}]
+            wrap = {"kind": "getitem", "item": argidx[0]}
+        else:
+            rest = [x for x in rest]
+            classes = [{"name": "A", "bases": ["Rule"], "attrs": rest}]
+            wrap = {"kind": "getitem", "item": "origin"}
+    else:   # field / dfield / fieldbase
+        allx = flat(everything)
+        argidx = [o["o"] for x in allx if x[0] == "__args__" for o in x[1]["v"]["t"]]
+        ell = any(x[0] == "__ellipsis_args__" for x in allx)
+        ordinary = [x for x in allx if x[0] not in ("__args__", "__ellipsis_args__", "post_validate")]
+        hooks = [x for x in allx if x[0] == "post_validate"]
+        kind = "dfield" if shape == "dfield" else "field"
+        if shape == "fieldbase" or hooks:
+            cut = rng.randint(0, len(ordinary))
+            inner = ordinary[:cut] + hooks + [x for x in allx if x[0] in ("__args__", "__ellipsis_args__")]
+            classes = [{"name": "A", "bases": ["origin", "Rule"], "attrs": inner}]
+            wrap = {"kind": kind, "ann": "base", "cs": ordinary[cut:]}
+        elif argidx:
+            g = {"list": "List", "set": "Set", "tuple": "TupleE" if ell else "Tuple"}[origin]
+            wrap = {"kind": kind, "ann": {"g": g, "args": argidx}, "cs": ordinary}
+        else:
+            wrap = {"kind": kind, "ann": "origin", "cs": ordinary}
+    return {"op": "decl", "origin": origin, "types": types, "classes": classes, "wrap": wrap, "shape": shape,
+            "feats": sorted(set(feats)), "value": encode(value)}
+
+
+def ELEM_TYPES_BY(enc_t):
+    for t in ELEM_TYPES:
+        if _enc_tdesc(t) == enc_t:
+            return t
+    raise KeyError(enc_t)
+
+
+LAX_NUM = ["ge", "le", "multiple_of", "decimal_places", "max_digits"]
+
+
+def gen_lax_pair_case(rng):
+    """two (sometimes three) Lax constraints on a number, every pair of the five numeric ones, with bounds and values chosen
+    so that both transformations fire and can disturb each other (bound not a multiple of `multiple_of`, value beyond
+    the bound, more digits than `max_digits`, …); sometimes a strict third constraint"""
+    origin = rng.choice(["int", "int", "Decimal", "Decimal", "float"])
+    names = rng.sample(LAX_NUM if origin != "int" else ["ge", "le", "multiple_of", "max_digits"], rng.choice([2, 2, 2, 3]))
+    if "ge" in names and "le" in names and rng.random() < 0.5:
+        names.remove(rng.choice(["ge", "le"]))
+        names.append(rng.choice([n for n in (LAX_NUM if origin != "int" else ["multiple_of", "max_digits"]) if n not in names]))
+    T = CLS_BY_NAME[origin]
+    cs = {}
+    m = rng.choice([2, 3, 4, 5, 7])
+    lo = rng.choice([-7, -1, 0, 1, 2, 5])
+    hi = lo + rng.choice([3, 5, 8, 9, 10, 11, 100])
+    for n in names:
+        if n == "multiple_of":
+            cs[n] = m if origin != "Decimal" or rng.random() < 0.6 else Decimal(rng.choice(["0.5", "2.5", "0.3"]))
+        elif n == "ge":
+            cs[n] = T(lo) if origin != "Decimal" or rng.random() < 0.6 else Decimal(lo) + Decimal(rng.choice(["0.25", "0.5", "0.125"]))
+        elif n == "le":
+            cs[n] = T(hi) if origin != "Decimal" or rng.random() < 0.6 else Decimal(hi) + Decimal(rng.choice(["0.25", "0.5", "0.995"]))
+        elif n == "decimal_places":
+            cs[n] = rng.choice([0, 1, 2])
+        elif n == "max_digits":
+            cs[n] = rng.choice([1, 2, 3, 4])
+    lax = list(names)
+    if rng.random() < 0.3:
+        extra = rng.choice([n for n in ["gt", "lt", "ge", "le", "multiple_of", "max_digits"] if n not in cs and not (n in ("gt", "ge") and ("gt" in cs or "ge" in cs))
+                            and not (n in ("lt", "le") and ("lt" in cs or "le" in cs))] or ["max_digits"])
+        if extra not in cs:
+            cs[extra] = {"gt": T(lo - 1), "ge": T(lo), "lt": T(hi + 1), "le": T(hi), "multiple_of": m, "max_digits": 3}[extra]
+            if rng.random() < 0.3 and extra in LAXABLE:
+                lax.append(extra)
+    cands = [hi + 1, hi + 2, hi + m, lo - 1, lo - m, hi, lo, hi - 1, 10 ** 3 + 1, 99, 100, 12, 10, 9, 7]
+    v = rng.choice(cands)
+    if origin == "int":
+        val = int(v)
+    elif origin == "float":
+        val = float(v) + rng.choice([0, 0.5, 0.25, 0.125, 0.75])
+    else:
+        val = Decimal(v) + Decimal(rng.choice(["0", "0.5", "0.99", "0.995", "0.125", "0.05"]))
+    return {"op": "rule", "origin": origin, "constraints": [[n, encode(b)] for n, b in cs.items()], "lax": lax, "value": encode(val)}
+
+
 def gen_validator_case(rng, names):
     name = rng.choice(names)
     base = name[4:] if name.startswith("lax_") else name
@@ -451,6 +1084,17 @@ def cmp_reference(case):
 
 # ------------------------------------------------------------------------------------------------
 
+def canon_validators(vs):
+    if not isinstance(vs, list):
+        return vs
+    out = []
+    for n, b in vs:
+        if n in ("enum", "lax_enum") and isinstance(b, dict) and any(k in b for k in ("t", "S", "F")):
+            b = {"l": list(b.get("t") or b.get("S") or b.get("F") or [])}
+        out.append([n, canon(b)])
+    return out
+
+
 class C02(Check):
     prop = "C02"
     props_modules = ["Utv.Props.C02"]
@@ -462,20 +1106,31 @@ class C02(Check):
     rule = ("(a) direct calls of every Constraints validator on (value, bound) pairs at and around the bounds (ints, dyadic floats incl. "
             "nan/inf/-0.0/±1ulp, Decimals incl. trailing zeros/exponents/carries, strs, list/tuple/set with ==-duplicates like 1/1.0/True); "
             "(b) declared constrained types (1-4 legal constraints, the library's own declaration checks decide legality) applied to values "
-            "of the source type, with isinstance and a re-parse; (c) an audit of the modelled Python operators against CPython. "
-            "non-trivial = value within 1 step of a bound, or length within 1 of a limit, or a rejected value, or >= 2 constraints; "
-            "distinct by (constraints, value)")
+            "of the source type, with isinstance and a re-parse; (c) an audit of the modelled Python operators against CPython; "
+            "(d) declared types built every way (2-3 Rule bases, 3 levels, diamond, override, cancel, rename, Rule.annotate, Base[...], "
+            "Field(...) on Schema/DataClass) with the constraint set partitioned over the classes, contains/min_contains/max_contains with "
+            "counts at 0, 1, bound-1, bound, bound+1, element types, post_validate hooks, types whose only check is contains or a hook: "
+            "real __validators__ vs constraints visible through the MRO, isinstance vs parse verdict vs independent oracle. "
+            "non-trivial = value within 1 step of a bound, or length within 1 of a limit, or a rejected value, or >= 2 constraints, "
+            "or any declared-type case whose declaration the library accepted; distinct by (declaration, value)")
     assumptions = ["Py.* operator semantics (lean/Utv/Py/Basic.lean) and Prims (repr/str of floats and Decimals, re.fullmatch, float round) "
                    "are CPython's: audited on every run by the 'cmp' stream and by running every generated validator against the real one",
                    "float arithmetic (%, //, round on floats) is outside the Lean model: covered by the correspondence/oracle only"]
-    budget = {"quick": 3000, "thorough": 60000}
-    search_budget = {"quick": 6000, "thorough": 60000}
+    budget = {"quick": 6000, "thorough": 150000}
+    search_budget = {"quick": 8000, "thorough": 80000}
+
+    decl_share = 0.3
 
     def cases(self, tier, rng, n):
         out = []
         for _ in range(n):
+            if rng.random() < self.decl_share:
+                out.append(gen_decl_case(rng))
+                continue
             k = rng.random()
-            if k < 0.45:
+            if self.lax_mode and k < 0.12:
+                out.append(gen_lax_pair_case(rng))
+            elif k < 0.45:
                 out.append(gen_rule_case(rng, self.lax_mode))
             elif k < 0.9:
                 out.append(gen_validator_case(rng, self.validator_names))
@@ -503,13 +1158,20 @@ class C02(Check):
         if case["op"] == "rule":
             lax = set(case.get("lax", []))
             line["constraints"] = [[("lax_" + n) if n in lax else n, b] for n, b in case["constraints"]]
+        if case["op"] == "decl":
+            try:
+                mro = mro_bodies(case)
+            except Exception:
+                return {"op": "skip"}
+            line = {"op": "decl", "origin": case["origin"], "mro": mro, "types": case["types"], "value": case["value"],
+                    "prims": line["prims"]}
         return line
 
     # -- correspondence -------------------------------------------------------------------------
     def compare(self, case, io, mo):
         if not isinstance(mo, dict) or "driver-error" in mo:
             return f"driver: {mo}"
-        if "unmodelled" in mo:
+        if "unmodelled" in mo and "validators" not in mo:
             return None
         op = case["op"]
         if op == "cmp":
@@ -527,6 +1189,25 @@ class C02(Check):
             if "err" in io and "err" in mo:
                 return None if io["err"] == mo["err"] else f"exception differs: impl {io['err']} model {mo['err']}"
             return f"verdict differs: impl {io} model {mo}"
+        if op == "decl":
+            if io.get("decl") != "ok" or "validators" not in mo:
+                return None
+            w = case.get("wrap") or {}
+            # the class's compiled validators are the constraints visible through the MRO (names, modes, bounds, order)
+            if canon_validators(io["validators"]) != canon_validators(mo["validators"]):
+                return f"__validators__ differ: real class {io['validators']} / visible through the MRO {mo['validators']}"
+            if w.get("ann") == "base" and w.get("cs"):
+                return None       # a rule as the origin of a rule: the inner parse is another declaration (oracle only)
+            if "parse" not in mo:
+                return None
+            p = io["parse"]
+            if ("ok" in p) != ("ok" in mo["parse"]):
+                return f"verdict differs: impl {p} model {mo['parse']}"
+            if "ok" in p and canon(p["ok"]) != canon(mo["parse"]["ok"]):
+                return f"parse result differs: impl {p['ok']} model {mo['parse']['ok']}"
+            if io.get("isinstance") != mo.get("isinstance"):
+                return f"isinstance differs: impl {io.get('isinstance')} model {mo.get('isinstance')}"
+            return None
         if op == "rule":
             if io.get("decl") != "ok":
                 return None
@@ -572,6 +1253,37 @@ class C02(Check):
                 if not same:
                     return f"{name}({v!r}, {b!r}) returned {r!r}, not equal to its input"
             return None
+        if op == "decl":
+            if io.get("decl") != "ok":
+                return None
+            v = decode(case["value"])
+            p = io["parse"]
+            if "escape" in p:
+                return None   # C04's business
+            got = "ok" in p
+            what = self._decl_text(case)
+            if not isinstance(v, CLS_BY_NAME[case["origin"]]):
+                return None
+            if io.get("isinstance") != got:
+                return f"isinstance({v!r}, T) = {io.get('isinstance')} but parse {'succeeds' if got else 'fails'}; T: {what}"
+            try:
+                want = decl_expected(case)
+            except Undefined:
+                return None
+            except Exception:
+                return None
+            if want != got:
+                return (f"{what} on {v!r}: the declared constraints {'hold' if want else 'do not hold'} but parse "
+                        f"{'succeeded' if got else 'failed with ' + str(p.get('perr'))} (isinstance = {io.get('isinstance')})")
+            if got and not io.get("result_equal"):
+                return f"{what} on {v!r}: accepted but result {decode(p['ok'])!r} != input"
+            vf = io.get("via_field")
+            if vf is not None and "escape" not in vf:
+                if ("ok" in vf) != got:
+                    return f"{what} on {v!r}: the data class field {'accepts' if 'ok' in vf else 'rejects'} what its type {'accepts' if got else 'rejects'}"
+                if got and canon(vf["ok"]) != canon(p["ok"]):
+                    return f"{what} on {v!r}: field result {vf['ok']} differs from type result {p['ok']}"
+            return None
         if op == "rule":
             if io.get("decl") != "ok" or case.get("lax"):
                 return None
@@ -605,6 +1317,29 @@ class C02(Check):
     def _cs(case):
         return {n: decode(b) for n, b in case["constraints"]}
 
+    @staticmethod
+    def _decl_text(case):
+        def body(attrs):
+            out = []
+            for k, a in attrs:
+                if a == "cancel":
+                    out.append(f"{k}=unprovided")
+                elif k == "contains":
+                    out.append(f"contains=<{case['types'][a['v']['o']]}>")
+                elif k == "__args__":
+                    out.append("__args__=" + str([case["types"][x["o"]] for x in a["v"]["t"]]))
+                elif k == "post_validate":
+                    out.append(f"post_validate=<{a['v']['s']}>")
+                else:
+                    out.append(f"{k}={decode(a['v'])!r}")
+            return ", ".join(out) or "pass"
+        parts = [f"class {c['name']}({', '.join(case['origin'] if b == 'origin' else b for b in c['bases'])}): {body(c['attrs'])}"
+                 for c in case["classes"]]
+        w = case.get("wrap")
+        if w:
+            parts.append(f"{w['kind']}({ {k: v for k, v in w.items() if k not in ('kind', 'cs')} }, constraints: {body(w.get('cs', []))})")
+        return "; ".join(parts)
+
     def key(self, case, io):
         if case["op"] == "cmp":
             return None
@@ -624,6 +1359,8 @@ class C02(Check):
                 return None
             if io.get("decl") != "ok":
                 return None
+            if case["op"] == "decl":
+                return json.dumps([case["classes"], case["wrap"], case["types"], case["value"]], sort_keys=True)
             if len(case["constraints"]) >= 2 or "perr" in io.get("parse", {}):
                 return json.dumps([case["constraints"], case.get("lax"), case["value"]], sort_keys=True)
         except Exception:
@@ -633,6 +1370,10 @@ class C02(Check):
     def distribution(self, case, io):
         if case["op"] == "validator":
             return f"validator/{case['name']}/{'ok' if 'ok' in io else io.get('err')}"
+        if case["op"] == "decl":
+            if io.get("decl") != "ok":
+                return f"decl/{case['shape']}/decl-{io.get('decl')}"
+            return f"decl/{case['shape']}/{'+'.join(case['feats']) or 'plain'}/{'ok' if 'ok' in io['parse'] else 'perr'}"
         if case["op"] == "rule":
             if io.get("decl") != "ok":
                 return f"rule/{case['origin']}/decl-{io.get('decl')}"
@@ -645,6 +1386,29 @@ class C02(Check):
             v, b = decode(case["value"]), decode(case["bound"])
             for x in around(rng, b) + around(rng, v):
                 out.append(dict(case, value=encode(x)))
+        elif case["op"] == "decl":
+            v = decode(case["value"])
+            if isinstance(v, (list, tuple, set)):
+                items = list(v)
+                T = type(v)
+                for i in range(len(items)):
+                    out.append(dict(case, value=encode(T(items[:i] + items[i + 1:]))))
+                for x in [0, 1, -1, 2, 3, 5, "a", "ab", "", Decimal("0.5"), Decimal("100")]:
+                    try:
+                        out.append(dict(case, value=encode(T(items + [x]))))
+                    except Exception:
+                        pass
+            else:
+                for body in [c["attrs"] for c in case["classes"]] + [(case.get("wrap") or {}).get("cs", [])]:
+                    for k, a in body:
+                        if isinstance(a, dict) and k in ("gt", "ge", "lt", "le", "multiple_of", "max_digits"):
+                            for x in around(rng, decode(a["v"])):
+                                try:
+                                    out.append(dict(case, value=encode(CLS_BY_NAME[case["origin"]](x))))
+                                except Exception:
+                                    pass
+            for _ in range(6):
+                out.append(gen_decl_case(rng))
         elif case["op"] == "rule":
             for n, b in case["constraints"]:
                 for x in around(rng, decode(b)):
